@@ -80,6 +80,8 @@ def engine_prop(pid, monitors, fields, ops, results=False, quick=960, thorough=2
 
 
 engine_prop('C01', ['C01'], CHIP_FIELDS, CHIP_OPS)
+engine_prop('C02', ['C02'], SHOW_FIELDS | CHIP_FIELDS, {'ChipsPushing', 'HandKilling', 'HoleCardsShowingOrMucking'})
+engine_prop('C03', ['C03'], BET_FIELDS, BET_OPS)
 engine_prop('C06', ['C06'], CARD_FIELDS, CARD_OPS)
 engine_prop('C07', ['C07'], PHASE_FIELDS | CAN_FIELDS, ALL_OPS, results=True)
 engine_prop('C08', ['C08'], CAN_FIELDS, set(), results=True)
